@@ -432,7 +432,11 @@ func (a *Analyzer) Feed(r *ev.Rec) {
 	case "converged-late":
 		a.rep.Inconclusive = append(a.rep.Inconclusive, fmt.Sprintf("converged late: %d ticks (%s)", r.Cnt, r.Note))
 	case "not-converged":
-		a.find("C17", "no-progress-after-faults-stopped", "no-progress:"+firstWords(r.Note, 3), r.Q, "no convergence within %d ticks after faults stopped: %s", r.Cnt, r.Note)
+		sig := "no-progress:" + firstWords(r.Note, 3)
+		if strings.HasPrefix(r.Note, "faulty follower:") && a.rep.Stats["fault:wipe-follower"] > 0 {
+			sig = "no-progress:wiped-follower-refused-as-faulty"
+		}
+		a.find("C17", "no-progress-after-faults-stopped", sig, r.Q, "no convergence within %d ticks after faults stopped: %s", r.Cnt, r.Note)
 	case "harness-error":
 		a.rep.Inconclusive = append(a.rep.Inconclusive, "harness error: "+r.Err)
 	case "wire-id":
@@ -598,6 +602,7 @@ func (a *Analyzer) onOpen(n *nodeState, r *ev.Rec) {
 	if wipe {
 		// the harness brought the node back with an empty directory
 		n.maxTerm, n.ackVoteTerm, n.ackVoteFor, n.needLast = 0, 0, 0, 0
+		n.lastPersisted = [2]uint64{}
 		a.stat("wiped-restarts")
 	}
 	if prevInc > 0 && !wipe {
